@@ -90,6 +90,8 @@ def build(tier, seed):
     # every subset: the observable on EVERY subset (>= 5 configurations) of a short weight chain
     for wname in SHORT_W:
         cases.append({'kind': 'rw-allsubsets', 'w': wname})
+    for wscale in (3e-13, 1e-9, 1e9):
+        cases.append({'kind': 'rw-allsubsets', 'w': 'irregular8', 'wscale': wscale})
     if tier == 'thorough':
         # two replicas: every pair of subsets (one per replica) of two 7-configuration chains, and every single-replica subset
         for first in range(0, 29, 4):
@@ -166,6 +168,9 @@ def all_subsets(cfgs, kmin=5):
 def run_rw_allsubsets(pe, acc, case):
     wl = SHORT_W[case['w']]
     wsamp = samples_for(wl, wfun, ('ws', case['w']))
+    # the reweighting factor of another magnitude (exp(-dS) weights are tiny or huge): <w o> / <w> does not depend on it
+    wscale = case.get('wscale', 1.0)
+    wsamp = {n: wscale * v for n, v in wsamp.items()}
     w = mk(pe, wl, wsamp)
     n0 = sorted(wl)[0]
     n = 0
@@ -192,7 +197,7 @@ def run_rw_allsubsets(pe, acc, case):
             if bad:
                 acc.fail('reweight:subset:%s' % ('all' if allc else 'own'), s, 'weight on %s, observable on the subset %s, all_configs=%s: %s' % (wl[n0], sub, allc, bad))
             else:
-                acc.ok(('rws', case['w'], tuple(sub), allc, carrier), len(sub) < len(wl[n0]), 'reweight-subset')
+                acc.ok(('rws', case['w'], case.get('wscale', 1.0), tuple(sub), allc, carrier), len(sub) < len(wl[n0]), 'reweight-subset')
         n += 1
     acc.sample({'kind': 'rw-allsubsets', 'weight': wl, 'subsets': n})
 
@@ -462,6 +467,32 @@ def run_correlate(pe, acc, case):
                         acc.fail('correlate:misaligned-accepted:one-replica', sub, 'replica %s of the second operand lives on %s instead of %s (same length; other replicas aligned): correlate returned %r' % (rname, lb[rname], base[rname], r))
                     except Exception:
                         acc.ok(('corr-bad3', li, rname, how, nm), True, 'refused')
+    # ... and the same at large configuration numbers (one entry / the whole list moved by one step is a tiny RELATIVE change there)
+    for off in (250000, 4000000, 2 ** 31 + 11):
+        for bname, base_l in (('contiguous', list(range(1, 13))), ('strided', list(range(2, 26, 2))), ('irregular', [1, 2, 4, 5, 7, 8, 11, 12, 13, 14, 16, 19])):
+            ca = [off + c for c in base_l]
+            step = ca[1] - ca[0]
+            xa = mk(pe, {'A|r1': ca}, samples_for({'A|r1': ca}, wfun, ('cla', off, bname)))
+            ya = mk(pe, {'A|r1': ca}, samples_for({'A|r1': ca}, ofun, ('clb0', off, bname)))
+            try:
+                r = pe.correlate(xa, ya)
+                exp = ref.r_from_samples({'A|r1': samples_for({'A|r1': ca}, wfun, ('cla', off, bname))['A|r1'] * samples_for({'A|r1': ca}, ofun, ('clb0', off, bname))['A|r1']}, {'A|r1': ca})
+                bad = ref.close(exp, compare.to_ref(r), 1e-12)
+            except Exception as e:
+                bad = 'raised %s: %s' % (type(e).__name__, e)
+            if bad:
+                acc.fail('correlate:large-configuration-numbers', dict(case, offset=off, base=bname), 'aligned observables on configurations from %d on (%s): %s' % (off, bname, bad))
+            else:
+                acc.ok(('corr-large', off, bname), True, 'correlate')
+            for how in ('shift', 'one-entry', 'first-entry'):
+                cb = [c + step for c in ca] if how == 'shift' else (ca[:-1] + [ca[-1] + 1] if how == 'one-entry' else [ca[0] - 1] + ca[1:])
+                yb = mk(pe, {'A|r1': cb}, samples_for({'A|r1': cb}, ofun, ('clb', off, bname, how)))
+                for nm, x, y in (('ab', xa, yb), ('ba', yb, xa)):
+                    try:
+                        r = pe.correlate(x, y)
+                        acc.fail('correlate:misaligned-accepted:large-configuration-numbers', dict(case, offset=off, base=bname, how=how, order=nm), 'configurations %s... vs %s... (%s): correlate returned %r' % (ca[:3], cb[:3], how, r))
+                    except Exception:
+                        acc.ok(('corr-large-bad', off, bname, how, nm), True, 'refused')
     cv = o * pe.cov_Obs(1.0, 0.01, 'cv1')
     other = mk(pe, {'B|r1': list(range(1, 13))}, samples_for({'B|r1': list(range(1, 13))}, ofun, 'cq'))
     for nm, x, y in (('cov-first', cv, o), ('cov-second', o, cv), ('multi-ens', o + other, o + other)):
